@@ -217,7 +217,7 @@ def ascii_table(
                 # calendar units have no fixed length in seconds
                 months = int(value.astype("timedelta64[M]").astype("int64"))
                 return SimpleNamespace(months=months, days=0, nanoseconds=0)
-            seconds = value / numpy.timedelta64(1000000000, "ns")
+            seconds = value / numpy.timedelta64(1, "s")
             return SimpleNamespace(
                 months=0, days=int(seconds // 86400), nanoseconds=(seconds % 86400) * 1e9
             )
